@@ -371,8 +371,11 @@ def parse_file(path):
                     key=type(e).__name__+':'+re.sub(r'[0-9]+','N',str(e)[:40])
                     errs[key]+=1; errsamples.setdefault(key, st[:220])
                     cur.blocks[bb]['stmts'].append(('unparsed',st))
+    global ALLOC_STATICS
+    ALLOC_STATICS=dict(re.findall(r'^(alloc\d+) \(static: ([A-Za-z_0-9:]+)',open(path).read(),flags=re.M))
     return bodies, nst, errs, errsamples
 
+ALLOC_STATICS={}
 if __name__=='__main__':
     bodies,nst,errs,samples=parse_file(sys.argv[1])
     print('bodies',len(bodies),'statements',nst,'errors',sum(errs.values()))
